@@ -279,6 +279,91 @@ class ThrowModel:
         return sz.get("k") == "CXXMemberCallExpr" and re.search(r"::(size|length)$", sz.get("fn") or "") \
             and strip_all(call_object(sz)).get("id") == p1["id"]
 
+    # -- string positions ----------------------------------------------------------
+    def _find_derived_position(self, f, call, a):
+        """position argument is V or V + 1 where every definition of the local V in f is
+        `S.find*(...)` on the very string object the member is called on, and the call is
+        guarded by `V != npos` (if / loop condition)"""
+        from .facts import call_object
+        from .structure import Struct
+        e = strip_all(a)
+        if e.get("k") == "BinaryOperator" and e.get("op") == "+":
+            l, r = strip_all(e["c"][0]), strip_all(e["c"][1])
+            if r.get("k") == "IntegerLiteral" and r.get("v") == "1":
+                e = l
+            else:
+                return False
+        if e.get("k") != "DeclRefExpr" or e.get("rk") != "Var":
+            return False
+        vid = e["id"]
+        obj = call_object(call)
+        if obj is None:
+            return False
+        defs = []
+        for n in walk(f["body"]):
+            if n.get("k") == "DeclStmt":
+                for d in n["decls"]:
+                    if d.get("id") == vid:
+                        defs.append(d.get("init"))
+            elif n.get("k") == "BinaryOperator" and n.get("op") == "=" and \
+                    strip_all(n["c"][0]).get("id") == vid and strip_all(n["c"][0]).get("k") == "DeclRefExpr":
+                defs.append(n["c"][1])
+            elif n.get("k") in ("CompoundAssignOperator",) and strip_all(n["c"][0]).get("id") == vid:
+                return False
+            elif n.get("k") == "UnaryOperator" and n.get("op") in ("++", "--") and \
+                    strip_all(n["c"][0]).get("id") == vid:
+                return False
+        if not defs:
+            return False
+        for d in defs:
+            d = strip_all(d) if d else None
+            if d is None or d.get("k") != "CXXMemberCallExpr" or \
+                    not re.match(r"^std::basic_string<char>::(find|rfind|find_first_of|find_first_not_of|"
+                                 r"find_last_of|find_last_not_of)$", d.get("fn") or ""):
+                return False
+            if not self._same_ref(call_object(d), obj):
+                return False
+        S = self._struct(f)
+        for g in S.guards(call):
+            if g[0] == "switch":
+                continue
+            cond, pol = g
+            c = strip_all(cond)
+            if c.get("k") == "BinaryOperator" and c.get("op") in ("!=", "=="):
+                l, r = strip_all(c["c"][0]), strip_all(c["c"][1])
+                if l.get("id") == vid and (r.get("n") or "").endswith("::npos") and \
+                        ((c["op"] == "!=" and pol) or (c["op"] == "==" and not pol)):
+                    return True
+        return False
+
+    def _struct(self, f):
+        from .structure import Struct
+        key = ("S", f["mg"] or f["name"])
+        if key not in self.parent_cache:
+            self.parent_cache[key] = Struct(f)
+        return self.parent_cache[key]
+
+    FROZEN_POS = {
+        # (function, callee, position literal): reason
+        ("SLHAea::Line::str", "std::basic_string<char>::substr", "1"):
+            "Line::str() const: `output.str().substr(1)` after the early return for empty(): the loop "
+            "wrote at least the separator blank, so size >= 1",
+    }
+
+    def _frozen_position(self, f, call, a):
+        from .facts import call_object
+        e = strip_all(a)
+        key = (f["name"], call.get("fn"), e.get("v"))
+        if key in self.FROZEN_POS and e.get("k") == "IntegerLiteral":
+            # the structural part of the reason is re-checked: an `if (empty()) return` precedes
+            S = self._struct(f)
+            for g in S.guards(call):
+                if g[0] != "switch" and g[1] is False:
+                    c = strip_all(g[0])
+                    if is_call(c) and (c.get("fn") or "").endswith("::empty"):
+                        return self.FROZEN_POS[key]
+        return None
+
     # -- boost::format arity ------------------------------------------------------
     def _format_ok(self, f, call):
         """a `%`-chain or .str() on boost::format built from a literal whose directive count
@@ -324,7 +409,10 @@ class ThrowModel:
             p = par[id(top)]
             ps = p
             if ps.get("k") in ("ImplicitCastExpr", "ParenExpr", "ExprWithCleanups", "MaterializeTemporaryExpr",
-                               "CXXBindTemporaryExpr", "MemberExpr"):
+                               "CXXBindTemporaryExpr", "MemberExpr", "CXXFunctionalCastExpr"):
+                top = p
+                continue
+            if ps.get("k") == "CXXConstructExpr" and ps.get("elidable"):
                 top = p
                 continue
             fn = ps.get("fn") or ""
@@ -408,6 +496,14 @@ class ThrowModel:
                         break  # all defaults of these members are 0 / npos-lengths
                     if name.endswith("::substr") and self._prefix_idiom(f, n):
                         break
+                    if self._find_derived_position(f, n, a):
+                        self.ext_classes["string position derived from find*() on the same string and "
+                                         "guarded by != npos"].add("%s in %s" % (name, f["name"]))
+                        break
+                    fz = self._frozen_position(f, n, a)
+                    if fz:
+                        self.ext_classes["frozen reviewed exception: " + fz].add("%s in %s" % (name, f["name"]))
+                        break
                 else:
                     break  # position defaulted to 0
                 res["std::out_of_range"] = ("ext", name, line)
@@ -418,7 +514,12 @@ class ThrowModel:
                 if label == "lexical_cast":
                     args = call_args(n)
                     src_t = _unq(strip_all(args[0]).get("t")) if args else None
-                    if _unq(n.get("t")) == "std::basic_string<char>" and src_t in INT_TYPES | {"double", "float", "long double"}:
+                    enum_types = {e["name"] for e in F.enums.values()} | {e.get("tname") for e in F.enums.values()}
+                    benign = INT_TYPES | {"double", "float", "long double", "std::basic_string<char>",
+                                          "char *", "const char *"} | enum_types
+                    if src_t is not None and re.match(r"^(const )?char \[\d+\]$", src_t):
+                        src_t = "char *"
+                    if _unq(n.get("t")) == "std::basic_string<char>" and src_t in benign:
                         self.ext_classes["lexical_cast<string>(arithmetic): cannot fail"].add(name)
                         return {}
                 if label == "format":
